@@ -209,6 +209,39 @@ static uint64_t unrelated_fft(unsigned seed, int reps) {   // FFT products of un
     delete_TorusPolynomial(R); delete_TorusPolynomial(B); delete_IntPolynomial(A);
     return h;
 }
+// ---- FFTW back-end: how many threads are inside FFTW's planner API (creation and destruction of plans; only fftw_execute is
+//      reentrant) at once.  The harness interposes the three entry points the library uses. ----
+#if defined(FAM_FFTW)
+#include <dlfcn.h>
+#include <fftw3.h>
+static std::atomic<int> pl_inside(0), pl_max(0), pl_overlaps(0);
+struct PlGuard { PlGuard() { int v = ++pl_inside; int m = pl_max.load(); while (v > m && !pl_max.compare_exchange_weak(m, v)) {} if (v > 1) pl_overlaps++; } ~PlGuard() { --pl_inside; } };
+extern "C" fftw_plan fftw_plan_dft_r2c_1d(int n, double *in, fftw_complex *out, unsigned flags) {
+    static auto real = (fftw_plan (*)(int, double *, fftw_complex *, unsigned)) dlsym(RTLD_NEXT, "fftw_plan_dft_r2c_1d"); PlGuard g; return real(n, in, out, flags); }
+extern "C" fftw_plan fftw_plan_dft_c2r_1d(int n, fftw_complex *in, double *out, unsigned flags) {
+    static auto real = (fftw_plan (*)(int, fftw_complex *, double *, unsigned)) dlsym(RTLD_NEXT, "fftw_plan_dft_c2r_1d"); PlGuard g; return real(n, in, out, flags); }
+extern "C" void fftw_destroy_plan(fftw_plan p) {
+    static auto real = (void (*)(fftw_plan)) dlsym(RTLD_NEXT, "fftw_destroy_plan"); PlGuard g; real(p); }
+#endif
+// churn gens threads seed : generations of short-lived threads, each doing a few FFT products as its first and only work (the per-thread
+//   FFT state is built when a thread starts and released when it exits, all at about the same time).  prints: mismatches against the
+//   sequential reference, products, max threads inside the FFTW planner API at once (-1: not the FFTW back-end), overlapping planner calls
+static void op_churn(const V &a, V &r) {
+    const int gens = (int) a[0], nt = (int) a[1]; const unsigned seed = (unsigned) a[2];
+    uint64_t ref[4]; for (int q = 0; q < 4; q++) ref[q] = unrelated_fft(seed + q, 1 + q % 2);
+    std::atomic<long> mism(0), n(0);
+    for (int g = 0; g < gens; g++) {
+        std::vector<std::thread> th;
+        for (int t = 0; t < nt; t++) th.emplace_back([&, t]() { int q = (g + t) % 4; if (unrelated_fft(seed + q, 1 + q % 2) != ref[q]) mism++; n++; });
+        for (auto &t : th) t.join();
+    }
+    r.push_back(mism); r.push_back(n);
+#if defined(FAM_FFTW)
+    r.push_back(pl_max.load()); r.push_back(pl_overlaps.load());
+#else
+    r.push_back(-1); r.push_back(0);
+#endif
+}
 // threads <spec> nthreads iters mode : mode bit 0: yields/random start offsets, bit 1: a key-generation thread with its own data runs alongside,
 //   bit 2: each worker interleaves unrelated FFT products, bit 3: threads are created and destroyed once per item instead of once
 static void op_threads(const V &a, V &r) {
@@ -455,6 +488,7 @@ int main() {
         else if (op == "refhash") op_refhash(a, r);
         else if (op == "nomain") op_nomain(a, r);
         else if (op == "handover") op_handover(a, r);
+        else if (op == "churn") op_churn(a, r);
         else if (op == "history") op_history(a, r);
         else if (op == "footprint") op_footprint(a, r);
         else if (op == "poison") op_poison(a, r);
